@@ -86,6 +86,38 @@ def run(limit, workers):
         shutil.rmtree(d, ignore_errors=True)
     report()
 
+def recheck_one(m):
+    d = scratch()
+    repo = os.path.join(d, "repo")
+    path = os.path.join(repo, m["file"])
+    src = open(path, "rb").read()
+    try:
+        open(path, "wb").write(src[:m["start"]] + m["new"].encode() + src[m["end"]:])
+        c = subprocess.run([CHECKER, "all", "--root", repo], env=dict(ENV, VERIF_DIR=os.path.join(d, "verif")), capture_output=True, text=True)
+        m["caught_by"] = sorted({l.split("]")[0].split("[")[1] for l in c.stdout.splitlines() if l.startswith("  C") and "[" in l})
+        m["first_report"] = next((l.strip()[:240] for l in c.stdout.splitlines() if l.startswith("  C")), "")
+        return m
+    finally:
+        open(path, "wb").write(src)
+
+def recheck(workers):
+    """re-run the current checker on the survivors only (the test phase is not repeated)"""
+    global CHECKER
+    CHECKER = os.path.join(tempfile.mkdtemp(prefix="ankosweepbin."), "ankocheck")
+    shutil.copy(os.path.join(VERIF, "bin/ankocheck"), CHECKER)
+    dirs.append(os.path.dirname(CHECKER))
+    rs = [json.loads(l) for l in open(OUT)]
+    surv = [r for r in rs if r["status"] == "survived"]
+    rest = [r for r in rs if r["status"] != "survived"]
+    with concurrent.futures.ThreadPoolExecutor(max_workers=workers) as ex:
+        surv = list(ex.map(recheck_one, surv))
+    with open(OUT, "w") as out:
+        for r in rest + surv:
+            out.write(json.dumps(r) + "\n")
+    for d in dirs:
+        shutil.rmtree(d, ignore_errors=True)
+    report()
+
 def report():
     rs = [json.loads(l) for l in open(OUT)]
     n = len(rs)
@@ -111,5 +143,7 @@ if __name__ == "__main__":
             elif a[0] == "--workers": workers = int(a[1]); a = a[2:]
             else: a = a[1:]
         run(limit, workers)
+    elif len(sys.argv) > 1 and sys.argv[1] == "recheck":
+        recheck(12)
     else:
         report()
